@@ -63,7 +63,7 @@ def items(tier, seed):
             if tier == "quick":
                 k = max(3, n // 100) if has_pfx else 2
             else:
-                k = n if has_pfx else max(10, n // 4)
+                k = max(6, n // 30) if has_pfx else max(6, n // 8)
             idx = sorted(idx[:k])
             per = 6 if cpu.endswith(("cpu_x64", "cpu_x86")) else 20
             for i in range(0, len(idx), per):
@@ -237,7 +237,7 @@ def run_twin(cpu, mode, n, spec, pool, res, tier, pfx2=b""):
     for b1 in pool:
         E = symx.Engine(timeout_ms=20000, caps=dict(index=2, format=4, str=4, hash=6), max_decisions=6000)
         import time
-        paths = E.explore(twin_fn(mod, mode, n, spec, b1, pfx2), max_paths=150 if tier == "quick" else 1500, deadline=time.time() + (8 if tier == "quick" else 120))
+        paths = E.explore(twin_fn(mod, mode, n, spec, b1, pfx2), max_paths=150 if tier == "quick" else 400, deadline=time.time() + (8 if tier == "quick" else 25))
         res["explorations"] += 1
         if not E.complete:
             res["incomplete_explorations"] += 1
@@ -286,7 +286,7 @@ def build_pool(cpu, mode, si, res, tier):
         pool.append(p + p)
         pool.append(p + b"\x0f")
     for n in (1, 2):
-        E, recs = decx.explore(cpu, mode, n, None, max_paths=400, budget_s=10 if tier == "quick" else 60)
+        E, recs = decx.explore(cpu, mode, n, None, max_paths=400, budget_s=10 if tier == "quick" else 20)
         seen = set()
         for r in recs:
             k = (r.outcome, type(r.exc).__name__ if r.outcome == "exc" else "")
@@ -307,7 +307,7 @@ def run_item(item):
             _, cpu, mode, si, tier = item
             mod = isa.load(cpu)
             pfx = prefix_bytes(mod, si)
-            bud = 20 if tier == "quick" else 180
+            bud = 20 if tier == "quick" else 40
             for n in (0, 1, 2, 3):
                 E, recs = decx.explore(cpu, mode, n, None, max_paths=1500, budget_s=bud)
                 invariant(cpu, mode, n, None, b"", E, recs, res)
@@ -341,13 +341,13 @@ def run_item(item):
         pfx = prefix_bytes(mod, si)
         pool = build_pool(cpu, mode, si, res, tier)
         res["pool"] = len(pool)
-        bud = 12 if tier == "quick" else 180
+        bud = 12 if tier == "quick" else 30
         for k in idx:
             s = specs[k]
-            E, recs = decx.explore(cpu, mode, ml, s, max_paths=300 if tier == "quick" else 2500, budget_s=bud)
+            E, recs = decx.explore(cpu, mode, ml, s, max_paths=300 if tier == "quick" else 800, budget_s=bud)
             invariant(cpu, mode, ml, s, b"", E, recs, res)
             for p in pfx[:1] + pfx[5:6]:
-                E, recs = decx.explore(cpu, mode, ml - 1, s, prefix_bytes=p, max_paths=300 if tier == "quick" else 2500, budget_s=bud)
+                E, recs = decx.explore(cpu, mode, ml - 1, s, prefix_bytes=p, max_paths=300 if tier == "quick" else 800, budget_s=bud)
                 invariant(cpu, mode, ml - 1, s, p, E, recs, res)
             run_twin(cpu, mode, ml, s, pool, res, tier)
         if len(res["samples"]) < 1:
@@ -364,8 +364,8 @@ def coverage(agg, tier):
         "twin_paths": agg.get("twin_paths", 0), "path_outcomes": agg.get("outcomes", {}), "realize_capped_sites": agg.get("capped_sites", 0),
         "stubs": symx.STUBS,
         "rule": "state = one path of cpu.disassemble on symbolic bytes (optionally after concrete prefix bytes); obligation (a) = at the path's end the pending prefix instruction is None and internals are unchanged, whatever the outcome; obligation (b) = on every path of the twin harness the second call's instruction equals the fresh one (skeleton + solver equality of symbolic fields)",
-        "bounds": {"inputs": "unfocused lengths 0..3; each prefix byte followed by 0..2 symbolic bytes; per sampled spec (prefix ISAs: quick 1/100, thorough all; others: quick 2, thorough 1/4) all inputs of length maxlen matching it, also behind a prefix byte; twin first calls from a pool of <= 14 (quick: 8) concrete inputs",
-                   "paths": "quick <= 300 paths / 12 s per exploration, 150 paths / 8 s per twin; thorough <= 2500 / 180 s and 1500 / 120 s",
+        "bounds": {"inputs": "unfocused lengths 0..3; each prefix byte followed by 0..2 symbolic bytes; per sampled spec (prefix ISAs: quick 1/100, thorough 1/30; others: quick 2, thorough 1/8) all inputs of length maxlen matching it, also behind a prefix byte; twin first calls from a pool of <= 14 (quick: 8) concrete inputs",
+                   "paths": "quick <= 300 paths / 12 s per exploration, 150 paths / 8 s per twin; thorough <= 800 / 30 s and 400 / 25 s",
                    "outside": "histories longer than one earlier call in the twin (covered by the inductive argument), big-endian ARM fetch"},
         "exhaustive": False,
     }
